@@ -1,32 +1,39 @@
 (* C08 engine: drives GateModel.step over a case line (a schedule).
    Grammar and macro-step semantics: see harness/src/engines/c08.rs. Every op
    is a fixed sequence of model actions followed by "settling": the root
-   drains its command queue, blocked publishers retry in the order in which
-   they blocked (tokio's mpsc hands freed capacity to waiters first-come
-   first-served). The scheduling policy lives here (trusted glue); the
-   theorems hold for every action list. *)
+   works on its command queue until it is empty or until it has to WAIT
+   inside notify_clones for room in a clone's command queue (capacity 16);
+   blocked publishers retry in the order in which they blocked (tokio's mpsc
+   hands freed capacity to waiters first-come first-served). The scheduling
+   policy lives here (trusted glue); the theorems hold for every action list. *)
 open Conv
 open GateModel
 
 let nlinks = 6
 let maxclones = 6
-let lag_limit = 12
 
 let run_with (follow : bool) (line : string) : string =
   let ops = Stdlib.List.map words (split_on ';' line) in
   let cap = match ops with ("Q" :: k :: _) :: _ -> max 1 (int_of_string k) | _ -> 2 in
   let cf = { cf_cap = n_of_int cap; cf_follow = follow } in
+  let qlen = int_of_n cmd_queue_len in
   let s = ref init in
   let act a = s := step cf !s a in
   let blocked = ref [] (* publishers inside update_data, oldest block first *) in
-  let lag = Array.make (maxclones + 2) 0 in
-  let conn = Array.make nlinks false and susp = Array.make nlinks false and gone = Array.make nlinks false in
+  let gone = Array.make nlinks false in
+  let tgt_alive = Array.make nlinks false and slots = Array.make nlinks [] in
+  let root_handle = ref true   (* the harness still holds the root Gate object *) in
+  let term_req = ref false     (* T / Z was issued *) in
+  let drop_pending = ref false (* T while the root was still inside process(): the gate goes when process() returns *) in
   let nclone () = int_of_n !s.nclone in
-  let root_alive () = not (!s.root_term || !s.root_dropped) in
-  let zombie () = !s.root_term && not !s.root_dropped in
   let calive c = (!s.clones (n_of_int c)).c_alive in
   let cterm c = (!s.clones (n_of_int c)).c_term in
+  let cq c = (!s.clones (n_of_int c)).c_q in
   let idle p = pub_idle !s (n_of_int p) in
+  let lstate l = !s.links (n_of_int l) in
+  let conn l = (match lstate l with LConn _ -> true | _ -> false) in
+  let pending l = (match lstate l with LPending -> not gone.(l) | _ -> false) in
+  let susp l = (match lstate l with LConn (_, b) -> b | _ -> false) in
   let rest_len p = match !s.pubs (n_of_int p) with PSending (_, _, r, _) -> Stdlib.List.length r | PIdle _ -> -1 in
   (* run publisher p as far as it gets; true if it finished *)
   let run_pub p =
@@ -47,10 +54,27 @@ let run_with (follow : bool) (line : string) : string =
       let (fin, progress) = run_pub p in
       if fin then blocked := Stdlib.List.filter (fun q -> q <> p) !blocked
       else if progress then blocked := Stdlib.List.filter (fun q -> q <> p) !blocked @ [p]) order in
+  let root_running () = not (!s.root_term || !s.root_dropped) in
+  (* the root waits inside notify_clones: the next send goes to a live clone whose queue is full *)
+  let root_waits () = match !s.rnote with
+    | NSend (c, _) :: _ -> let k = !s.clones c in k.c_alive && Stdlib.List.length k.c_q >= qlen
+    | _ -> false in
   let root_drain () =
-    while root_alive () && !s.rootq <> [] do act ARoot done;
+    while root_running () && (!s.rnote <> [] || !s.rootq <> []) && not (root_waits ()) do act ARoot done;
+    if !drop_pending && !s.root_term && not !s.root_dropped then (act ARootDrop; drop_pending := false);
+    (* a connect() in flight ends in Gone when the gate goes away; a new slot of a direct link *)
+    for l = 0 to nlinks - 1 do
+      (match lstate l with
+       | LPending -> if !s.root_dropped then gone.(l) <- true
+       | LConn (x, _) -> if l mod 2 = 1 && not (Stdlib.List.mem x slots.(l)) then slots.(l) <- x :: slots.(l)
+       | LIdle -> ())
+    done;
     pubs_settle () in
-  (* ONE process() call of clone c, or (all) until its queue is empty *)
+  (* commands the root has not got to (it is waiting, or has terminated while the gate object lives) *)
+  let stuck () = not !s.root_dropped && !s.rootq <> [] in
+  let closing () = !term_req && not !s.root_dropped in
+  (* ONE process() call of clone c, or (all) until its queue is empty; the root only runs while the
+     clone waits on an empty queue *)
   let clone_process c all =
     if not (calive c) || cterm c then "skip" else begin
       let res = ref "" in
@@ -58,51 +82,53 @@ let run_with (follow : bool) (line : string) : string =
         let status0 = gate_dormant !s in
         let inner = ref "" in
         while !inner = "" do
-          match (!s.clones (n_of_int c)).c_q with
+          if cq c = [] then root_drain ();
+          match cq c with
           | [] -> if !s.root_dropped then (act (ACloneStep (n_of_int c)); inner := "term") else inner := "idle"
           | x :: _ ->
               act (ACloneStep (n_of_int c));
               if x = FTerm then inner := "term"
               else if gate_dormant !s <> status0 then inner := "ok"
         done;
-        if !inner = "idle" then (if all then lag.(c) <- 0; res := "idle")
+        if !inner = "idle" then res := "idle"
         else if !inner = "term" then res := "term"
         else if not all then res := "ok"
       done;
+      root_drain ();
       !res
     end in
-  let lag_guard () =
-    for c = 1 to nclone () - 1 do
-      if calive c && not (cterm c) && lag.(c) >= lag_limit then ignore (clone_process c true)
-    done in
-  let notified () =
-    if root_alive () then for c = 1 to nclone () - 1 do if calive c then lag.(c) <- lag.(c) + 1 done in
   let connect l =
-    if conn.(l) || zombie () then "skip" else if gone.(l) then "gone" else begin
-      lag_guard ();
+    if conn l || pending l || closing () || stuck () then "skip" else if gone.(l) then "gone" else begin
+      (* a direct link hands the gate a (new, if the old one was dropped) direct-update target *)
+      if l mod 2 = 1 && not tgt_alive.(l) then (tgt_alive.(l) <- true; slots.(l) <- []);
       if !s.root_dropped then (gone.(l) <- true; "gone") else begin
-        notified ();
         act (ASendSub (n_of_int l)); root_drain ();
-        match !s.links (n_of_int l) with
-        | LConn _ -> conn.(l) <- true; susp.(l) <- false; "ok"
-        | _ -> "hang"
+        match lstate l with
+        | LConn _ -> "ok"
+        | _ -> if gone.(l) then "gone" else "blk"
       end
     end in
   let link_cmd l what =
-    if not conn.(l) || zombie () then "skip"
-    else if what = "s" && susp.(l) then "skip"
-    else if what = "r" && not susp.(l) then "skip"
+    if not (conn l) || closing () || stuck () then "skip"
+    else if what = "s" && susp l then "skip"
+    else if what = "r" && not (susp l) then "skip"
     else begin
-      lag_guard ();
       (match what with
-       | "d" -> notified (); act (ASendUnsub (n_of_int l)); conn.(l) <- false; susp.(l) <- false
-       | "s" -> act (ASendSusp (n_of_int l, true)); susp.(l) <- true
-       | _ -> act (ASendSusp (n_of_int l, false)); susp.(l) <- false);
+       | "d" -> act (ASendUnsub (n_of_int l))
+       | "s" -> act (ASendSusp (n_of_int l, true))
+       | _ -> act (ASendSusp (n_of_int l, false)));
       root_drain (); "ok"
     end in
+  (* the component behind direct link l drops its direct-update target; the link stays subscribed *)
+  let target_drop l =
+    if l mod 2 = 0 || not tgt_alive.(l) || pending l then "skip" else begin
+      Stdlib.List.iter (fun x -> act (ARxDrop x)) slots.(l);
+      tgt_alive.(l) <- false; slots.(l) <- [];
+      pubs_settle (); "ok"
+    end in
   let query l =
-    if not conn.(l) || gone.(l) || l mod 2 = 1 then "skip" else begin
-      let r = match !s.links (n_of_int l) with
+    if not (conn l) || gone.(l) || l mod 2 = 1 then "skip" else begin
+      let r = match lstate l with
         | LConn (x, _) ->
             if (!s.chans x).ch_q <> [] then (act (ARecv (n_of_int l)); "item")
             else if all_gone !s then (gone.(l) <- true; "gone") else "-"
@@ -110,15 +136,26 @@ let run_with (follow : bool) (line : string) : string =
       pubs_settle (); r
     end in
   let update p =
-    if p >= nclone () || not (pub_alive !s (n_of_int p)) || not (idle p) then "skip" else begin
+    if p >= nclone () || (p = 0 && not !root_handle) || not (pub_alive !s (n_of_int p)) || not (idle p) then "skip" else begin
       act (ABegin (n_of_int p));
       let (fin, _) = run_pub p in
       if fin then "done" else (blocked := !blocked @ [p]; "blk")
     end in
-  let stop_root terminate drop_gate =
-    if terminate then (lag_guard (); notified (); act ASendTerm; root_drain ());
-    if drop_gate then act ARootDrop;
-    pubs_settle (); "ok" in
+  (* T: terminate and let go of the gate; Z: terminate, the gate object stays; X: the unit's task is
+     cancelled and the gate dropped *)
+  let terminate drop_gate =
+    term_req := true;
+    act ASendTerm; root_drain ();
+    let seen = !s.root_term in
+    if drop_gate then begin
+      root_handle := false;
+      if seen then act ARootDrop else drop_pending := true;
+      root_drain ()
+    end;
+    if seen then "ok" else "blk" in
+  let drop_root () =
+    root_handle := false; drop_pending := false;
+    act ARootDrop; root_drain (); "ok" in
   let num o = match o with _ :: k :: _ -> (try int_of_string k with _ -> 0) | _ -> 0 in
   let out = ref [] in
   let emit t = out := t :: !out in
@@ -128,10 +165,12 @@ let run_with (follow : bool) (line : string) : string =
     | "Q" :: _ -> emit "Q"
     | "c" :: _ when k < nlinks -> emit ("c:" ^ connect k)
     | ("d" | "s" | "r" as w) :: _ when k < nlinks -> emit (w ^ ":" ^ link_cmd k w)
+    | "t" :: _ when k < nlinks -> emit ("t:" ^ target_drop k)
     | "q" :: _ when k < nlinks -> emit ("q:" ^ query k)
     | "u" :: _ -> emit ("u:" ^ update k)
+    | "M" :: _ -> emit (Printf.sprintf "M:%d/%d" (int_of_n !s.m_upd) (int_of_n !s.m_drop))
     | "k" :: _ ->
-        if not (root_alive ()) || nclone () > maxclones then emit "k:skip"
+        if not !root_handle || !term_req || stuck () || nclone () > maxclones then emit "k:skip"
         else (act AClone; root_drain (); emit ("k:" ^ string_of_int (nclone () - 1)))
     | "x" :: _ ->
         if k = 0 || k >= nclone () || not (calive k) || not (idle k) then emit "x:skip"
@@ -139,9 +178,9 @@ let run_with (follow : bool) (line : string) : string =
     | ("F" | "D" as w) :: _ ->
         if k = 0 || k >= nclone () then emit (w ^ ":skip") else emit (w ^ ":" ^ clone_process k (w = "D"))
     | ("T" | "Z" as w) :: _ ->
-        if not (root_alive ()) || not (idle 0) then emit (w ^ ":skip") else emit (w ^ ":" ^ stop_root true (w = "T"))
+        if not !root_handle || !term_req || not (idle 0) then emit (w ^ ":skip") else emit (w ^ ":" ^ terminate (w = "T"))
     | "X" :: _ ->
-        if !s.root_dropped || not (idle 0) then emit "X:skip" else emit ("X:" ^ stop_root false true)
+        if not !root_handle || not (idle 0) then emit "X:skip" else emit ("X:" ^ drop_root ())
     | _ -> emit "?") ops;
   (* final phase *)
   let progress = ref true in
@@ -150,19 +189,26 @@ let run_with (follow : bool) (line : string) : string =
     Stdlib.List.iter (fun l -> while query l = "item" do progress := true done) [0; 2; 4]
   done;
   let busy = Stdlib.List.filter (fun p -> not (idle p)) (Stdlib.List.init (nclone ()) (fun p -> p)) in
-  if root_alive () && busy = [] then ignore (stop_root true true);
+  if busy = [] then begin
+    if !root_handle && not !term_req then ignore (terminate true);
+    (* every clone runs its process() until nothing moves any more *)
+    for _ = 1 to nclone () do
+      for c = 1 to nclone () - 1 do ignore (clone_process c true) done
+    done
+  end;
   let terms = ref [] in
   for c = 1 to nclone () - 1 do
     if calive c && busy = [] then begin
-      let r = if cterm c then "term" else clone_process c true in
-      terms := !terms @ [string_of_int c ^ ":" ^ (if r = "term" then "1" else "0")];
-      act (ACloneDrop (n_of_int c))
+      terms := !terms @ [string_of_int c ^ ":" ^ (if cterm c then "1" else "0")];
+      act (ACloneDrop (n_of_int c)); root_drain ()
     end
   done;
-  if not !s.root_dropped && busy = [] then ignore (stop_root false true);
+  (* did the root's process() return Err(Terminated)? (never after X) *)
+  let rterm = if !s.root_term then "1" else "0" in
+  if !root_handle && busy = [] then ignore (drop_root ());
   let gones = ref [] in
   Stdlib.List.iter (fun l ->
-    if conn.(l) && busy = [] then begin
+    if conn l && busy = [] then begin
       while query l = "item" do () done;
       gones := !gones @ [string_of_int l ^ ":" ^ (if gone.(l) then "1" else "0")]
     end) [0; 2; 4];
@@ -175,11 +221,17 @@ let run_with (follow : bool) (line : string) : string =
         string_of_int p ^ ":" ^ join "," (Stdlib.List.filter_map (fun (_, p', n) -> if p' = p then Some (string_of_int n) else None) mine)) ps) in
   let fin = ref [] in
   for l = 0 to nlinks - 1 do fin := !fin @ ["L" ^ string_of_int l ^ "=" ^ show_log l] done;
-  let nupd = Stdlib.List.length !s.completed in
-  let ndrop = Stdlib.List.length (Stdlib.List.filter (fun (_, sent) -> not sent) !s.completed) in
   let lst l = if l = [] then "-" else join "," l in
-  fin := !fin @ [Printf.sprintf "m=%d/%d" nupd ndrop; "busy=" ^ lst (Stdlib.List.map string_of_int busy);
-                 "t=" ^ lst !terms; "g=" ^ lst !gones];
-  join " " (Stdlib.List.rev !out @ ["|"] @ !fin)
+  fin := !fin @ [Printf.sprintf "m=%d/%d" (int_of_n !s.m_upd) (int_of_n !s.m_drop); "busy=" ^ lst (Stdlib.List.map string_of_int busy);
+                 "t=" ^ lst !terms; "r=" ^ rterm; "g=" ^ lst !gones];
+  let model = Stdlib.List.rev !out @ ["|"] @ !fin in
+  (* the PROPERTY does not say how long the root may take: where the model says that a connect() /
+     a Terminate had to wait for room in a clone's command queue, an implementation that does not
+     wait is a correspondence matter, not a violation of C08 - what Terminate and the updates reach
+     (t= r= g= L..=) is demanded as is *)
+  let relax t = match t with
+    | "c:blk" -> "c:<ok|blk>" | "T:blk" -> "T:<ok|blk>" | "Z:blk" -> "Z:<ok|blk>" | _ -> t in
+  let spec = Stdlib.List.map relax model in
+  if spec = model then join " " model else join " " model ^ " ||| " ^ join " " spec
 
 let run_case = run_with false
